@@ -537,7 +537,7 @@ _ENUMS = {"Result": ("core::result::Result", [[0, "Ok", 0], [1, "Err", 1]]), "Op
 _WRAP_ENUM = {"Ok": "Result", "Err": "Result", "Some": "Option", "None": "Option"}
 
 
-def desugar_adaptors(prog, body, accept):
+def desugar_adaptors(prog, body, accept, _round=0):
     """Synthetic Body in which `r.map_err(|e| { .. })` (and the other Option / Result adaptors taking a closure) are written out as
     the `match` they stand for, with the closure's body spliced into its arm: what a closure does when the adaptor calls it —
     sending an event, answering a request — then lies on the paths of the function like the arm of a hand-written match.  Only
@@ -573,9 +573,14 @@ def desugar_adaptors(prog, body, accept):
         spec = ADAPTORS.get(norm(f["name"])) if f is not None else None
         if spec is None:
             continue
-        cdef = _closure_def(blocks, t["args"][1])
-        cb = prog.bodies.get(cdef) if cdef else None
-        if cb is None or prog.bodies.get(cb.root, cb).id != prog.bodies.get(body.root, body).id or not accept(cb):
+        fnitem = t["args"][1].get("const") if isinstance(t["args"][1], dict) else None
+        fnitem = fnitem if fnitem is not None and "fn" in fnitem else None
+        if fnitem is None:
+            cdef = _closure_def(blocks, t["args"][1])
+            cb = prog.bodies.get(cdef) if cdef else None
+            if cb is None or prog.bodies.get(cb.root, cb).id != prog.bodies.get(body.root, body).id or not accept(cb):
+                continue
+        elif not accept(None):
             continue
         enum, cvar, cwrap, ovar, owrap = spec
         adt, variants = _ENUMS[enum]
@@ -610,11 +615,19 @@ def desugar_adaptors(prog, body, accept):
             sc.append({"k": "assign", "place": {"l": ARGS, "p": []}, "rv": {"k": "agg", "agg": "tuple", "ops": [{"move": {"l": P, "p": []}}]}, "span": span})
         else:
             sc.append({"k": "assign", "place": {"l": ARGS, "p": []}, "rv": {"k": "agg", "agg": "tuple", "ops": [payload(cvar)]}, "span": span})
+        if fnitem is not None:
+            # `.map(Response::into_single_frame)`: a plain call of that function with the payload
+            targ = sc[-1]["rv"]["ops"]
+            sc.pop()
+            call = {"k": "call", "func": {"const": copy.deepcopy(fnitem)}, "fty": fnitem.get("ty", "fn"), "args": copy.deepcopy(targ),
+                    "dest": {"l": TMP, "p": []}, "target": b_wrap, "unwind": t.get("unwind"), "fn_span": t.get("fn_span")}
+            blocks.append({"s": sc, "t": call, "cleanup": False, "ts": span, "inlined_from": name})
         call = {"k": "call", "func": {"const": {"c": "core::ops::function::FnOnce::call_once", "ty": "fn", "fn": {
             "def": "core::ops::function::FnOnce::call_once", "name": "core::ops::function::FnOnce::call_once", "args": []}}},
             "fty": "fn", "args": [copy.deepcopy(t["args"][1]), {"move": {"l": ARGS, "p": []}}], "dest": {"l": TMP, "p": []}, "target": b_wrap,
             "unwind": t.get("unwind"), "fn_span": t.get("fn_span")}
-        blocks.append({"s": sc, "t": call, "cleanup": False, "ts": span, "inlined_from": name})
+        if fnitem is None:
+            blocks.append({"s": sc, "t": call, "cleanup": False, "ts": span, "inlined_from": name})
         if cwrap == "=":
             sw = [{"k": "assign", "place": copy.deepcopy(t["dest"]), "rv": {"k": "use", "op": {"move": {"l": R, "p": []}}}, "span": span}]
         else:
@@ -631,4 +644,11 @@ def desugar_adaptors(prog, body, accept):
     # the closure calls now sit in spliced code and the closures were written by the function itself: `inlined` takes them apart
     out = inlined(prog, nbody, lambda cb: False, depth=2)
     out.raw["desugared"] = done
+    if _round < 3:
+        # a spliced closure may itself hand a closure / function to an adaptor (`.map(|res| res.map(Response::into_single_frame))`)
+        nxt = desugar_adaptors(prog, out, accept, _round + 1)
+        if nxt is not out:
+            nxt.raw["desugared"] = done + [x for x in nxt.raw.get("desugared", [])]
+            nxt.raw["inlined"] = list(out.raw.get("inlined", [])) + [x for x in nxt.raw.get("inlined", []) if x not in out.raw.get("inlined", [])]
+            return nxt
     return out
